@@ -281,6 +281,9 @@ def finish(ctx, props_file, aud, cov, violations, broken_ties, assumptions, extr
         "axioms_reported": {k: v for k, v in aud["axioms"].items() if v},
     }
     coverage.update(cov)
+    coverage["tie_breaks"] = len(broken_ties)
+    if broken_ties:
+        coverage["tie_break_examples"] = broken_ties[:8]
     ev = {"property_id": ctx.prop, "tier": ctx.tier, "seed": ctx.seed, "level": "proof",
           "coverage": coverage, "assumptions": assumptions, "wall_s": round(time.time() - ctx.t0, 2),
           "violations": reported + (1 if rc and not reported else 0)}
